@@ -41,6 +41,7 @@ CONSTANTS
   D1Fixed, D2Fixed,
   PNatSet, CNatSet, FpSet,     \* attribute domains explored by Init (subsets of NATs, CNATs, FPs)
   UnknownTargets,              \* TRUE: answers may name a session id the broker never saw
+  DupSids,                     \* TRUE: a proxy poll may reuse the session id of an earlier poll
   Bridges,                     \* configured bridge list (subset of {"default", "b2"}); "unlisted" is never configured
   None
 
@@ -50,7 +51,7 @@ FPs   == {"default", "b2", "unlisted"}                          \* requested bri
 RelayURL(fp) == IF fp = "default" THEN "wss://default.example/" ELSE "wss://b2.example/"
 
 VARIABLES
-  pnat, pload, cnat, cfp, atarget,  \* request attributes, fixed in Init
+  pnat, pload, psid, cnat, cfp, atarget,  \* request attributes, set when the request arrives
   ppc, wpc, cpc, apc,               \* program counters
   heapU, heapR, idmap, gauge,       \* shared state under snowflakeLock
   woffer,                           \* offer (client) held by waiter / handler of p
@@ -60,18 +61,18 @@ VARIABLES
   ptimer, ctimer,                   \* remaining ticks, -1 = not running
   presp, cresp, aresp               \* responses (observations)
 
-attrs == <<pnat, pload, cnat, cfp, atarget>>
-vars == <<pnat, pload, cnat, cfp, atarget, ppc, wpc, cpc, apc, heapU, heapR, idmap, gauge,
+attrs == <<pnat, pload, psid, cnat, cfp, atarget>>
+vars == <<pnat, pload, psid, cnat, cfp, atarget, ppc, wpc, cpc, apc, heapU, heapR, idmap, gauge,
           woffer, claimed, asnow, abuf, ptimer, ctimer, presp, cresp, aresp>>
 (* Responses are observations only; they never influence behaviour. *)
-view == <<pnat, pload, cnat, cfp, atarget, ppc, wpc, cpc, apc, heapU, heapR, idmap, gauge,
+view == <<pnat, pload, psid, cnat, cfp, atarget, ppc, wpc, cpc, apc, heapU, heapR, idmap, gauge,
           woffer, claimed, asnow, abuf, ptimer, ctimer>>
 
 Eff(n) == IF n = "absent" THEN "unknown" ELSE n
 EffNat(c) == Eff(cnat[c])
 
 Init ==
-  /\ pnat = [p \in Proxies |-> None] /\ pload = [p \in Proxies |-> None]
+  /\ pnat = [p \in Proxies |-> None] /\ pload = [p \in Proxies |-> None] /\ psid = [p \in Proxies |-> None]
   /\ cnat = [c \in Clients |-> None] /\ cfp = [c \in Clients |-> None]
   /\ atarget = [a \in Answers |-> None]
   /\ ppc = [p \in Proxies |-> "idle"] /\ wpc = [p \in Proxies |-> "none"]
@@ -88,17 +89,28 @@ Init ==
 (* Handler decodes the poll, hands it to the Broker goroutine, which adds the
    snowflake to the heap of its NAT class, the id map and the gauge under the
    lock and starts the waiter with its timeout. *)
-ProxyRegister(p, nat, load) ==
+(* The id map is a set of pairs <<session id, snowflake>> with at most one pair
+   per session id: registering a session id that is already present (a proxy
+   that polls again before its first poll completed) overwrites the entry. *)
+Without(m, sid) == {e \in m : e[1] # sid}
+Lookup(m, sid) == IF \E e \in m : e[1] = sid THEN (CHOOSE e \in m : e[1] = sid)[2] ELSE None
+
+ProxyRegister(p, nat, load, sid) ==
   /\ ppc[p] = "idle"
+  /\ psid' = [psid EXCEPT ![p] = sid]
   /\ (NoTies => \A q \in Proxies : pload[q] # load)
   /\ pnat' = [pnat EXCEPT ![p] = nat] /\ pload' = [pload EXCEPT ![p] = load]
   /\ ppc' = [ppc EXCEPT ![p] = "waiting"]
   /\ wpc' = [wpc EXCEPT ![p] = "waiting"]
   /\ IF nat = "unrestricted" THEN heapU' = heapU \cup {p} /\ UNCHANGED heapR
                                  ELSE heapR' = heapR \cup {p} /\ UNCHANGED heapU
-  /\ idmap' = idmap \cup {p} /\ gauge' = gauge + 1
+  /\ idmap' = Without(idmap, sid) \cup {<<sid, p>>} /\ gauge' = gauge + 1
   /\ ptimer' = [ptimer EXCEPT ![p] = PT]
   /\ UNCHANGED <<cnat, cfp, atarget, cpc, apc, woffer, claimed, asnow, abuf, ctimer, presp, cresp, aresp>>
+
+(* A proxy polls again with the session id of an earlier poll q (e.g. a retry
+   after a network error) while q may still be pending. *)
+ProxyRepoll(p, nat, load, q) == DupSids /\ q # p /\ ppc[q] # "idle" /\ ProxyRegister(p, nat, load, psid[q])
 
 Popped(p) == p \notin heapU /\ p \notin heapR
 
@@ -134,7 +146,7 @@ WaiterTimeoutLocked(p) ==
   /\ wpc[p] = "fired"
   /\ IF ~Popped(p)
      THEN /\ heapU' = heapU \ {p} /\ heapR' = heapR \ {p}
-          /\ idmap' = idmap \ {p} /\ gauge' = gauge - 1
+          /\ idmap' = Without(idmap, psid[p]) /\ gauge' = gauge - 1
           /\ wpc' = [wpc EXCEPT ![p] = "done"]
           /\ ppc' = [ppc EXCEPT ![p] = "gotNil"]
      ELSE /\ UNCHANGED <<heapU, heapR, idmap, gauge, ppc>>
@@ -176,7 +188,7 @@ ClientMatch(c, nat, fp) ==
           /\ claimed' = [claimed EXCEPT ![c] = p]
           /\ cpc' = [cpc EXCEPT ![c] = "sendOffer"]
           /\ UNCHANGED cresp
-  /\ UNCHANGED <<pnat, pload, atarget, ppc, wpc, apc, idmap, gauge, woffer, asnow, abuf, ptimer, ctimer, presp, aresp>>
+  /\ UNCHANGED <<pnat, pload, psid, atarget, ppc, wpc, apc, idmap, gauge, woffer, asnow, abuf, ptimer, ctimer, presp, aresp>>
 
 (* Pinned code: the proxy's unbuffered answer send meets the client's receive. *)
 AnswerRendezvous(a, c) ==
@@ -219,7 +231,7 @@ ClientTimerFire(c) ==
 ClientCleanup(c) ==
   /\ cpc[c] = "cleanup"
   /\ cpc' = [cpc EXCEPT ![c] = "done"]
-  /\ idmap' = idmap \ {claimed[c]} /\ gauge' = gauge - 1
+  /\ idmap' = Without(idmap, psid[claimed[c]]) /\ gauge' = gauge - 1
   /\ UNCHANGED <<attrs, ppc, wpc, apc, heapU, heapR, woffer, claimed, asnow, abuf, ptimer, ctimer, presp, cresp, aresp>>
 
 -----------------------------------------------------------------------------
@@ -228,14 +240,14 @@ ClientCleanup(c) ==
 AnswerLookup(a, t) ==
   /\ apc[a] = "idle"
   /\ atarget' = [atarget EXCEPT ![a] = t]
-  /\ IF t \in idmap
+  /\ IF Lookup(idmap, t) # None
      THEN /\ apc' = [apc EXCEPT ![a] = "send"]
-          /\ asnow' = [asnow EXCEPT ![a] = t]
+          /\ asnow' = [asnow EXCEPT ![a] = Lookup(idmap, t)]
           /\ aresp' = [aresp EXCEPT ![a] = [kind |-> "success"]]
      ELSE /\ apc' = [apc EXCEPT ![a] = "done"]
           /\ aresp' = [aresp EXCEPT ![a] = [kind |-> "gone"]]
           /\ UNCHANGED asnow
-  /\ UNCHANGED <<pnat, pload, cnat, cfp, ppc, wpc, cpc, heapU, heapR, idmap, gauge, woffer, claimed, abuf, ptimer, ctimer, presp, cresp>>
+  /\ UNCHANGED <<pnat, pload, psid, cnat, cfp, ppc, wpc, cpc, heapU, heapR, idmap, gauge, woffer, claimed, abuf, ptimer, ctimer, presp, cresp>>
 
 -----------------------------------------------------------------------------
 (* Steps no gate holds back in a replay: they have happened before the clock moves. *)
@@ -266,7 +278,8 @@ CodeStep ==
   \/ \E c \in Clients : ClientGetAnswer(c) \/ ClientTimerFire(c) \/ ClientCleanup(c)
 Targets == Proxies \cup (IF UnknownTargets THEN {"unknownSid"} ELSE {})
 Arrival ==
-  \/ \E p \in Proxies, nat \in PNatSet, load \in Loads : ProxyRegister(p, nat, load)
+  \/ \E p \in Proxies, nat \in PNatSet, load \in Loads : ProxyRegister(p, nat, load, p)
+  \/ \E p \in Proxies, nat \in PNatSet, load \in Loads, q \in Proxies : ProxyRepoll(p, nat, load, q)
   \/ \E c \in Clients, nat \in CNatSet, fp \in FpSet : ClientMatch(c, nat, fp)
   \/ \E a \in Answers, t \in Targets : AnswerLookup(a, t)
 
@@ -284,14 +297,15 @@ Spec == Init /\ [][Next]_vars /\ Fairness
 (* Properties *)
 
 TypeOK ==
-  /\ heapU \subseteq Proxies /\ heapR \subseteq Proxies /\ idmap \subseteq Proxies
+  /\ heapU \subseteq Proxies /\ heapR \subseteq Proxies
+  /\ \A e \in idmap : e[2] \in Proxies /\ \A f \in idmap : e[1] = f[1] => e = f
   /\ \A p \in Proxies : ptimer[p] \in -1..PT
   /\ \A c \in Clients : ctimer[c] \in -1..CT
 
 (* C02 *)
 NoCrossWire ==
   \A c \in Clients : (cresp[c] # None /\ cresp[c].kind = "answer") =>
-      /\ atarget[cresp[c].answer] = claimed[c]
+      /\ atarget[cresp[c].answer] = psid[claimed[c]]
       /\ (presp[claimed[c]] # None /\ presp[claimed[c]].kind = "offer" => presp[claimed[c]].client = c)
 OneOfferPerPoll ==   \* an offer reaches only the poll whose snowflake its client popped
   \A p \in Proxies : (presp[p] # None /\ presp[p].kind = "offer") => claimed[presp[p].client] = p
@@ -320,8 +334,10 @@ Quiet == /\ \A p \in Proxies : (ppc[p] = "done" /\ wpc[p] = "done") \/ (ppc[p] =
          /\ \A c \in Clients : cpc[c] \in {"idle", "done"}
          /\ \A a \in Answers : apc[a] \in {"idle", "done"}
 NoGhost == Quiet => (idmap = {} /\ heapU = {} /\ heapR = {} /\ gauge = 0)
-GaugeIsIdmap == gauge = Cardinality(idmap)
-HeapsInIdmap == (heapU \cup heapR) \subseteq idmap
+DistinctSids == \A p, q \in Proxies : (p # q /\ psid[p] # None) => psid[p] # psid[q]
+GaugeIsIdmap == DistinctSids => gauge = Cardinality(idmap)
+HeapsInIdmap == DistinctSids => \A p \in heapU \cup heapR : <<psid[p], p>> \in idmap
+GaugeCountsHeaps == gauge >= Cardinality(heapU \cup heapR)
 EveryRequestCompletes ==
   /\ \A p \in Proxies : (ppc[p] # "idle") ~> (ppc[p] = "done")
   /\ \A c \in Clients : (cpc[c] # "idle") ~> (cpc[c] = "done")
